@@ -3,4 +3,4 @@
 cd /verif
 tier=${1:-quick}
 ids=$(python3 -c "import json;print(','.join(c['property_id'] for c in json.load(open('MANIFEST.json'))['checks']))")
-bin/pverif check "$ids" --tier "$tier" 2>&1 | grep -E '^(SUMMARY|VIOLAT|UNDECIDED|KNOWN)' | cut -c1-300
+tools/pverif check "$ids" --tier "$tier" 2>&1 | grep -E '^(SUMMARY|VIOLAT|UNDECIDED|KNOWN)' | cut -c1-300
